@@ -130,7 +130,7 @@ func (configgen *ConfigGeneratorImpl) buildGatewayListeners(builder *ListenerBui
 	mutableopts := make(map[string]mutableListenerOpts)
 	proxyConfig := builder.node.Metadata.ProxyConfigOrDefault(builder.push.Mesh.DefaultConfig)
 	// listener port -> host/bind
-	tlsHostsByPort := map[uint32]map[string]string{}
+	tlsHostsByPort := map[uint32]map[string]sets.String{}
 	for _, port := range mergedGateway.ServerPorts {
 		// Skip ports we cannot bind to. Note that mergeGateways will already translate Service port to
 		// targetPort, which handles the common case of exposing ports like 80 and 443 but listening on
@@ -257,7 +257,7 @@ func (configgen *ConfigGeneratorImpl) buildGatewayTCPBasedFilterChains(
 	serversForPort *model.MergedServers,
 	proxyConfig *meshconfig.ProxyConfig,
 	mergedGateway *model.MergedGateway,
-	tlsHostsByPort map[uint32]map[string]string,
+	tlsHostsByPort map[uint32]map[string]sets.String,
 ) {
 	// Add network level extension filters if any configured.
 	trafficExtensions := builder.push.TrafficExtensionsByListenerInfo(builder.node, model.ListenerInfo{
@@ -813,7 +813,7 @@ func convertTLSProtocol(in networking.ServerTLSSettings_TLSProtocol) tls.TlsPara
 
 func (lb *ListenerBuilder) createGatewayTCPFilterChainOpts(
 	server *networking.Server, listenerPort uint32,
-	gatewayName string, tlsHostsByPort map[uint32]map[string]string,
+	gatewayName string, tlsHostsByPort map[uint32]map[string]sets.String,
 ) []*filterChainOpts {
 	// We have a TCP/TLS server. This could be TLS termination (user specifies server.TLS with simple/mutual)
 	// or opaque TCP (server.TLS is nil). or it could be a TLS passthrough with SNI based routing.
@@ -920,7 +920,7 @@ func (lb *ListenerBuilder) buildGatewayNetworkFiltersFromTCPRoutes(server *netwo
 // It first obtains all virtual services bound to the set of Gateways for this workload, filters them by this
 // server's port and hostnames, and produces network filters for each destination from the filtered services
 func (lb *ListenerBuilder) buildGatewayNetworkFiltersFromTLSRoutes(server *networking.Server,
-	listenerPort uint32, gatewayName string, tlsHostsByPort map[uint32]map[string]string,
+	listenerPort uint32, gatewayName string, tlsHostsByPort map[uint32]map[string]sets.String,
 ) []*filterChainOpts {
 	port := &model.Port{
 		Name:     server.Port.Name,
@@ -966,7 +966,7 @@ func (lb *ListenerBuilder) buildGatewayNetworkFiltersFromTLSRoutes(server *netwo
 						// To avoid this, we need to make sure we don't have duplicated SNI hosts, which will become
 						// SNI filter chain matches
 						if tlsHostsByPort[listenerPort] == nil {
-							tlsHostsByPort[listenerPort] = make(map[string]string)
+							tlsHostsByPort[listenerPort] = make(map[string]sets.String)
 						}
 						if duplicateSniHosts := model.CheckDuplicates(match.SniHosts, server.Bind, tlsHostsByPort[listenerPort]); len(duplicateSniHosts) != 0 {
 							log.Warnf(
